@@ -174,6 +174,8 @@ func (s *channelState) decrementSendWindow(ctx async.Context, data []byte) statu
 			return status.OK
 		}
 
+		verifYield(9)
+
 		// Wait for send window increment
 		select {
 		case <-ctx.Wait():
